@@ -618,6 +618,26 @@ func (s *crSess) judgeDir(d, names string, acked, issued int, exact bool, prop s
 		}
 		return ""
 	}
+	matchesLoose := func(m int) string {
+		latest := map[string]crEnt{}
+		for _, c := range s.commits[:m] {
+			for _, e := range c.ents {
+				latest[string(e.key)] = e
+			}
+		}
+		for _, k := range wantKeys {
+			w, ok := latest[k]
+			g := gets[k]
+			wantFound := ok && !w.del
+			if wantFound && len(w.val) >= s.cfg.thr {
+				continue // stored in the value log
+			}
+			if g.found != wantFound || (wantFound && !bytes.Equal(g.val, w.val)) {
+				return "x"
+			}
+		}
+		return ""
+	}
 	m := -1
 	for c := issued; c >= acked; c-- {
 		if matches(c) == "" {
@@ -633,7 +653,18 @@ func (s *crSess) judgeDir(d, names string, acked, issued int, exact bool, prop s
 				break
 			}
 		}
-		if lower >= 0 {
+		// the same search with value-log values not compared: the keys and versions of an
+		// acknowledged prefix are there, a value is not
+		if ml := func() int {
+			for c := issued; c >= acked; c-- {
+				if matchesLoose(c) == "" {
+					return c
+				}
+			}
+			return -1
+		}(); ml >= 0 {
+			fail(prop+"-acked-value-lost", fmt.Sprintf("the recovered keys are those of commits[:%d] (acked %d) but a value-log value is not: %s", ml, acked, matches(ml)))
+		} else if lower >= 0 {
 			fail(prop+"-lost-acked", fmt.Sprintf("recovered state equals commits[:%d] but %d commits were acknowledged (first lost: ts=%d)", lower, acked, s.commits[lower].ts))
 		} else {
 			fail(prop+"-partial-txn", fmt.Sprintf("recovered state is no prefix of the commit order (acked %d, issued %d): %s", acked, issued, matches(acked)))
@@ -1080,12 +1111,12 @@ func (s *crSess) crashes(kv map[string]string, emit func(string, string), fail f
 func genCrash(rng *rand.Rand, n int, st *Stats) []string {
 	var ops []string
 	for c := 0; c < n; c++ {
-		ops = append(ops, genCrashSession(rng, st)...)
+		ops = append(ops, genCrashSession(rng, st, c)...)
 	}
 	return ops
 }
 
-func genCrashSession(rng *rand.Rand, st *Stats) []string {
+func genCrashSession(rng *rand.Rand, st *Stats, idx int) []string {
 	sync := rng.Intn(3) != 0
 	if params["sync"] != "" {
 		sync = params["sync"] == "1"
@@ -1107,6 +1138,14 @@ func genCrashSession(rng *rand.Rand, st *Stats) []string {
 	}
 	vmax := pick(rng, 3, 5, 1000)
 	keep := pick(rng, 1000, 1000, 1)
+	// power mode, every other session (the first one always): values go to the value log and
+	// the value log rotates every few entries, inside a commit and between two requests of one
+	// writeRequests call -- the msync that precedes the acknowledgement must hit the file the
+	// values went to
+	vprof := params["mode"] == "power" && idx%2 == 0
+	if vprof {
+		memsz, thr, vmax = pick(rng, 8192, 16384), pick(rng, 16, 32), pick(rng, 3, 5)
+	}
 	var ops []string
 	ops = append(ops, fmt.Sprintf("reset sync=%d memsz=%d thr=%d vmax=%d keep=%d l0close=%d", b2i(sync), memsz, thr, vmax, keep, 0))
 	st.Inc(fmt.Sprintf("session:sync=%v,memsz=%d", sync, memsz))
@@ -1129,8 +1168,33 @@ func genCrashSession(rng *rand.Rand, st *Stats) []string {
 	if vmax <= 5 && thr <= 32 && params["mode"] != "power" {
 		gcAt = rng.Intn(nsteps)
 	}
+	vrunAt, vbatchAt := -1, -1
+	if vprof {
+		vrunAt, vbatchAt = rng.Intn(nsteps), rng.Intn(nsteps)
+	}
+	vlogVal := func() []byte {
+		v := make([]byte, thr+rng.Intn(30))
+		rng.Read(v)
+		v[len(v)-1] |= 1
+		return v
+	}
 	for i := 0; i < nsteps; i++ {
 		r := rng.Intn(100)
+		if i == vrunAt {
+			// enough value-log commits for the value log to rotate inside one of them
+			for j := 0; j < vmax+2; j++ {
+				ops = append(ops, fmt.Sprintf("commit %s:0:%s", hx(keys[rng.Intn(len(keys))]), hx(vlogVal())))
+			}
+		}
+		if i == vbatchAt {
+			// one writeRequests call with vmax+2 value-log requests: the value log rotates after
+			// one of them and the later ones go to the new file
+			rq := []string{fmt.Sprintf("%s:0:%s", hx(keys[rng.Intn(len(keys))]), hx([]byte{byte(1 + rng.Intn(200))}))}
+			for j := 0; j < vmax+2; j++ {
+				rq = append(rq, fmt.Sprintf("%s:0:%s", hx(keys[rng.Intn(len(keys))]), hx(vlogVal())))
+			}
+			ops = append(ops, "batch "+strings.Join(rq, " "))
+		}
 		if i == gcAt {
 			// value-log values until the value log has rotated, a few later small commits (the
 			// newest versions, in the WAL only), then GC of the oldest value-log file: its live
@@ -2154,6 +2218,13 @@ func (s *crSess) batch(words []string, emit func(string, string), fail func(stri
 			// let the writer pick the first request up and get stuck on it
 			for k := 0; k < 2000 && badger.VerifWriteChLen(s.db) > 0; k++ {
 				time.Sleep(50 * time.Microsecond)
+			}
+			if s.cfg.sync {
+				// with SyncWrites valueLog.write ends with an msync event: once it is there the
+				// first request is inside writeRequests, alone (no sleep-length guess)
+				for k := 0; k < 100000 && s.nEvents() <= issued[0]; k++ {
+					time.Sleep(50 * time.Microsecond)
+				}
 			}
 			time.Sleep(2 * time.Millisecond)
 		}
